@@ -1,5 +1,5 @@
 import Driver.Util
-import CtyModel.Ops
+import CtyModel.Ops2
 open CtyModel
 
 def valRes (r : Res Value) : String := resTag (fun v => toString v.toSexp) r
@@ -17,4 +17,21 @@ def handleOps : Handler := fun op args =>
   | "op.and", [a, b] => bin Value.and a b
   | "op.or", [a, b] => bin Value.or a b
   | "op.not", [a] => un Value.not a
+  | "op.add", [a, b] => bin Value.add a b
+  | "op.sub", [a, b] => bin Value.sub a b
+  | "op.mul", [a, b] => bin Value.mul a b
+  | "op.div", [a, b] => bin Value.div a b
+  | "op.mod", [a, b] => bin Value.mod a b
+  | "op.neg", [a] => un Value.neg a
+  | "op.abs", [a] => un Value.abs a
+  | "op.index", [a, b] => bin Value.index a b
+  | "op.hasindex", [a, b] => bin Value.hasIndex a b
+  | "op.length", [a] => un Value.length a
+  | "op.getattr", [a, n] => do
+    pure (valRes (Value.getAttr (← Value.ofSexp a) (← Sexp.decStr n)))
+  | "op.haselement", [a, b, h] => do
+    let h : Option Int ← (match h with
+      | .atom "-" => some none
+      | x => (Sexp.decInt x).map some)
+    pure (valRes (Value.hasElement (← Value.ofSexp a) (← Value.ofSexp b) h))
   | _, _ => none
